@@ -129,18 +129,74 @@ def ties(r, n):
     return len(with_un), codes["f_un"][0]
 
 
+def sem_tie(r, n):
+    """C: the reference semantics of the templates (Model/Invert.v trun over Model/Prims.v arrays) replayed by
+    Coq on the inputs and results of the real interpreter, for catalogue terms and their emitted inverses"""
+    rc, out, err = run_bin("c03", ["sem", n], seed=r.seed, timeout=1200)
+    recs = [c for c in json_lines(out) if "sem" in c]
+    if rc != 0 or not recs:
+        r.broken_obligation("tie-harness", "c03 sem failed", (out + err)[-2000:])
+        return 0
+    hdr = ("From Coq Require Import List ZArith NArith Bool. Import ListNotations.\n"
+           "From UV Require Import Model.Prims Model.Invert.\n"
+           "Definition code (c : list tn * list arr * list arr) : N := let '(f, i, o) := c in\n"
+           "  match trun f (i, []) with\n"
+           "  | Ok (o', []) => if list_eqb arr_eqb o' o then 0%N else 1%N\n"
+           "  | Ok _ => 1%N | Err => 1%N | Unspec => 2%N end.\n")
+    jobs, shard = [], 150
+    for si, ch in enumerate(chunks(recs, shard)):
+        body = ";\n".join("(%s, %s, %s)" % (c["tn"], c["ins"], c["outs"]) for c in ch)
+        jobs.append(("c03_sem_%d" % si, hdr + "Definition cases : list (list tn * list arr * list arr) := [\n%s\n].\nEval vm_compute in (map code cases).\n" % body))
+    res = coq_eval_many(jobs, timeout=1200)
+    agree, decl, bad = 0, 0, []
+    prims_agree = {}
+    for si, (rc2, o) in enumerate(res):
+        if rc2 != 0:
+            r.broken_obligation("tie-eval", "Coq evaluation of a semantics shard failed", o[-1500:])
+            continue
+        for i, k in enumerate(coq_ints(o)):
+            if k == 0:
+                agree += 1
+                for m in set(re.findall(r"P_\w+|TDipN|TBoth|TUnBoth|TBracket|TUnBracket|TDip|TPush", recs[si * shard + i]["tn"])):
+                    prims_agree[m] = prims_agree.get(m, 0) + 1
+            elif k == 2:
+                decl += 1
+            else:
+                bad.append(recs[si * shard + i])
+    prims = {}
+    for c in recs:
+        for m in re.findall(r"P_\w+|TDipN|TBoth|TUnBoth|TBracket|TUnBracket|TDip|TPush", c["tn"]):
+            prims[m] = prims.get(m, 0) + 1
+    r.coverage["tie_semantics"] = {"kind": "C", "runs": len(recs), "model_agrees": agree, "model_declines(outside its exact sub-domain)": decl,
+                                   "mismatches": len(bad), "template_constructors_in_runs": prims,
+                                   "template_constructors_in_agreeing_runs": prims_agree}
+    need = ["P_Mul", "P_Div", "P_Flip", "TDipN", "P_Join", "P_UnJoin", "P_Add", "P_Sub", "P_Rotate", "P_AntiRotate", "P_Couple", "P_UnCouple", "P_Box", "P_UnBox"]
+    missing = [m for m in need if not prims_agree.get(m)]
+    if missing and len(recs) >= 500:
+        r.broken_obligation("tie:semantics-coverage", "modelled template constructors never replayed in agreement: %s" % missing, json.dumps(prims_agree))
+    if False:
+        pass
+    r.log("semantics tie: %d interpreter runs replayed by trun: %d agree, %d outside the model's domain, %d mismatches" % (len(recs), agree, decl, len(bad)))
+    if bad:
+        c = bad[0]
+        r.broken_obligation("tie:Invert.v-trun~interpreter", "the template semantics and the interpreter disagree on %d of %d runs" % (len(bad), len(recs)),
+                            json.dumps(c, ensure_ascii=False)[:1500])
+    return len(recs)
+
+
 def run(r):
     quick = r.tier == "quick"
     r.trusted += TRUSTED_COMMON + [
         "exporters of uiua::Node trees: to the spine's node type (harness/src/lib.rs Export) and to the template type tn (harness/src/bin/c03.rs, primitives by name)",
-        "the reference semantics of the catalogue primitives (Model/Prims.v + Model/Invert.v prim_sem) is tied to the implementation by C08's correspondence and by this property's search, not by proof",
+        "the reference semantics of the templates (Model/Invert.v trun / prim_sem over Model/Prims.v arrays) is tied to the implementation by the semantics correspondence of this check (interpreter runs of catalogue terms and their emitted inverses replayed by Coq) and by C08's correspondence, not by proof",
         "operands of both/bracket are modelled as run on exactly their arguments (C02_sig_sound justifies this)",
     ]
     r.assumptions += ["states are admissible: arrays well-formed, integers below 2^53 in magnitude, valid code points (st_okb)",
                       "F succeeds on the state (domain of F); couple on equal shapes/types, rotate by a scalar, +c/-c with a literal integer c, join / un-join of a scalar and a list",
-                      "catalogue covered by the theorems: identity, flip, neg, not, reverse, box/unbox, fix/unfix, couple/uncouple, join/un-join, +c, -c, rotate/anti-rotate by a literal, "
+                      "catalogue covered by the theorems: identity, flip, neg, not, reverse, box/unbox, fix/unfix, couple/uncouple, join/un-join, +c, -c, ×c / ÷c with a non-zero literal integer (exact: products below 2^53, whole quotients), "
+                      "the flipped subtraction `c : -`, rotate/anti-rotate by a literal, dip over several values, "
                       "closed under sequencing (incl. the un-join rule: every piece before a join inverted in place, in reverse order), dip, both/un-both, bracket/un-bracket; "
-                      "everything else (transpose, join-with-literal template, chain links `⊙⊂` and counted un-joins, ×c ÷c, ˜-c, bits, utf8, on/by, rows, fill, the algebra solver's re-derivations) "
+                      "everything else (transpose, join-with-literal template, chain links `⊙⊂` and counted un-joins, bits, utf8, on/by, rows, fill, the algebra solver's re-derivations) "
                       "is covered by the search and the directed families only",
                       "the records C03_*_refuted_pre are about models of OLD engines (before 8f54207; at 8f54207), kept with their regression inputs",
                       "anti-inverses are judged for dyadic blocks only (the property's quantifier); anti of composites is counted",
@@ -149,6 +205,7 @@ def run(r):
         return
     r.proofs()
     a = ties(r, 500 if quick else 6000)
+    nsem = sem_tie(r, 600 if quick else 6000)
     m = 4000 if quick else 120000
     if r.broken:
         m *= 3
@@ -182,7 +239,8 @@ def run(r):
            s.get("right_range_checked"), s.get("unun_checked"), s.get("anti_checked")))
     r.coverage["evaluations"] = a[0] + s.get("evaluations", 0)
     r.coverage["distinct_nontrivial"] = a[0] + s.get("in_domain", 0)
-    r.coverage["rule"] = ("V: the depth-2 closure of the catalogue (blocks, dip/both/fill/rows of a block, every sequence and bracket of two blocks; "
+    r.coverage["rule"] = ("C: interpreter runs of catalogue terms of depth <= 3 and of their emitted inverses (arguments of every type, integer-valued results) replayed by "
+                          "Coq's trun; the run is broken if a modelled template constructor is never replayed in agreement; V: the depth-2 closure of the catalogue (blocks, dip/both/fill/rows of a block, every sequence and bracket of two blocks; "
                           "quick: a seeded subset, thorough: all) plus seeded terms of depth 3-4; search: all blocks, then terms of depth 2/3/4 in equal "
                           "parts, arguments of every element type (num, byte, char, complex, box) and rank 0-3, neighbours often sharing shape and type; "
                           "inputs outside a block's domain (decided by running the term with per-block guards) are skipped and counted; "
